@@ -104,7 +104,7 @@ def c01():
     return {
         "props_file": "Props/C01.v",
         "theorems": ["C01_partition", "C01_every_step", "C01_failed_fit", "C01_nonvacuous",
-                     "C01_labels", "C01_labels_partition", "C01_refine_labels", "C01_labels_nonvacuous"],
+                     "C01_labels", "C01_labels_partition", "C01_refine_labels", "C01_labels_nonvacuous", "C01_fit_stops_at_first_bad"],
         "suites": [suite_hist.suite_hist_api, suite_hist.suite_exhaustive, suite_hist.suite_boundary],
         "search": suite_hist.search_hist("C01"),
         "replay": suite_hist.replay_hist("C01"),
@@ -209,7 +209,7 @@ def c03():
     return {
         "props_file": "Props/C03.v",
         "theorems": ["C03_bound", "C03_never_merge", "C03_merge_meets", "C03_not_below_is_ge",
-                     "C03_step_grown", "C03_last_grown"],
+                     "C03_step_grown", "C03_last_grown", "C03_last_grown_labels", "C03_step_grown_labels"],
         "suites": [suite_hist.suite_hist_api, suite_merges.suite_merges],
         "search": suite_hist.search_hist("C03"),
         "replay": suite_hist.replay_hist("C03"),
@@ -227,7 +227,7 @@ def c04():
     import suite_forms
     return {
         "props_file": "Props/C04.v",
-        "theorems": ["C04_release_safe", "C04_no_release_when_disabled", "C04_source_tie", "C04_source_tie_ctor", "C04_source_tie_ctor_other",
+        "theorems": ["C04_release_safe", "C04_no_release_when_disabled", "C04_source_tie", "C04_source_tie_ctor", "C04_source_tie_ctor_other", "C04_many_chunks", "C04_many_chunks_side_condition_needed",
                      "C04_chunks", "C04_run_chunks", "C04_packed_form", "C04_function",
                      "C04_release_example"],
         "model_files": ["Model/Obs.v", "Model/Mem.v"],
@@ -300,7 +300,7 @@ def c20():
     return {
         "props_file": "Props/C20.v",
         "theorems": ["C20_reader_safe", "C20_monotone", "C20_final_value", "C20_inplace_refuted",
-                     "C20_nonvacuous", "C20_two_readers_safe", "C20_two_readers_monotone",
+                     "C20_nonvacuous", "C20_two_readers_safe", "C20_two_readers_monotone", "C20_reader_exists_then_open_safe", "C20_reader_exists_then_open_refines",
                      "C20_published_never_disappears", "C20_source_tie_update_cond"],
         "model_files": ["Model/Monitor.v", "Gen/GMon.v", "Proofs/GenTieMon.v"],
         "suites": [suite_monitor.suite_monitor, suite_monitor.suite_monitor_interleave],
@@ -331,7 +331,7 @@ def c18():
                      "C18_refused", "C18_sorted_largest_first", "C18_sklearn_labels",
                      "C18_predict_is_argmin", "C18_jaccard_symmetric"],
         "model_files": ["Model/Obs.v", "Model/ObsBits.v", "Model/Labels.v"],
-        "suites": [suite_labels.suite_labels],
+        "suites": [suite_labels.suite_labels, suite_labels.suite_label_states],
         "search": suite_labels.search_c18,
         "replay": suite_labels.replay_c18,
         "level": "proof",
@@ -405,7 +405,7 @@ def c15():
     return {
         "props_file": "Props/C15.v",
         "theorems": ["C15_nonempty_refused", "C15_overwrite", "C15_overwrite_never_refuses",
-                     "C15_run_config_total", "C15_refine_options", "C15_plan_fits_all_files"],
+                     "C15_run_config_total", "C15_refine_options", "C15_plan_fits_all_files", "C15_validate_table"],
         "model_files": ["Model/Cli.v", "Model/ObsCli.v"],
         "suites": [suite_cli.suite_cli],
         "search": suite_cli.search_c15,
